@@ -1577,6 +1577,7 @@ def summarize(results):
 
 
 def meta(tier):
+    thorough = tier == 'thorough'
     return {
         'rule': 'one state = (solver, problem recipe); inside a state every right-hand side of '
                 'V^m x start {0, pattern} x admissible step size of the grid is executed and '
@@ -1586,29 +1587,53 @@ def meta(tier):
                 'symmetric positive definite matrices over {-1,0,1,2} (n=2,3), all full-rank '
                 'rectangular matrices over the alphabet modulo permutation of equations / sign of '
                 'unknowns, all x* in V^n x residual / sub-gradient patterns for the non-smooth '
-                'pool.  distinct = distinct (solver, outcome class, iteration-count class, '
-                'executed-line signature of the anchored solver functions).',
+                'pool (built backwards from a KKT pair that the reference sub-differentials '
+                're-certify in every state).  distinct = distinct (solver, outcome class, '
+                'iteration-count class, executed-line signature of the anchored solver functions).',
         'bounds': {
-            'matrix_alphabet': MV, 'rhs_alphabet': RV, 'x_star_alphabets': [XV, XVP, XVN],
+            'matrix_alphabet': MV, 'rhs_alphabet': [RV, RV3],
+            'x_star_alphabets': {'general': XV, 'kullback_leibler': XVP, 'nonnegativity': XVN},
+            'x_star_patterns': 'all of V^n (n<=3), V^4 for rof1d, 27 of V^4 otherwise'
+                               if thorough else 'palindromic members of V^n (3 / 9 per family)',
             'spd': 'all 10 (n=2) + 96 (n=3), x {well, ill (D S D, D_00=2^-3)} x '
-                   '{unweighted, const 2, array weights}',
-            'rect': 'canonical full rank 2x2 3x2 2x3 over {-1,0,1,2} (thorough; quick {-1,0,1}), '
-                    '3x3 over {-1,0,1}; ill = first row * 2^-6',
+                   '{unweighted, const 2, array weights}' + ('' if thorough else
+                                                             ' (n=3: 1 combination in 12 beyond '
+                                                             'the unweighted well-conditioned one)'),
+            'rect': ('canonical full rank 2x2 (8), 3x2 (44), 2x3 (68) over {-1,0,1,2}, 33 of the '
+                     '3x3 over {-1,0,1}' if thorough else
+                     'canonical full rank 2x2 over {-1,0,1,2}, 3x2 2x3 over {-1,0,1}, 33 3x3') +
+                    '; ill = first row * 2^-6; other weightings on the {-1,0,1} sub-pool',
+            'cg_iterations': 'n + 2', 'cgn_iterations': 'n + 2', 'landweber_iterations': 8,
+            'kaczmarz_sweeps': 3,
             'landweber_omega*|A|^2': LW_OMEGA + ['default'],
             'kaczmarz_omega_i*|A_i|^2': KZ_OMEGA,
+            'line_search_options': LS_OPTS,
+            'smooth_horizons': {'short': 25, 'long': 1500},
             'nonsmooth_families': sorted(FAMS),
+            'step_grids': 'pdhg/admm: tau*sigma|L|^2 in {0.9, 0.5, 0.99} x ratio {1, 4, 1/4}; '
+                          'DR: tau*sum(sigma_i|L_i|^2) in {2, 3.6, 1} with lam {1, 1.5, 0.5}; '
+                          'FBPD: the documented inequality evaluated explicitly; PG gamma*Lip in '
+                          '{1, 1.9, 0.5} (lam 1) and (1, lam 0.5); APG gamma*Lip in {1, 0.5}; '
+                          'default / tau-only / sigma-only rules of pdhg and DR'
+                          + ('' if thorough else ' (quick: first setting of each + default)'),
             'liveness_horizon_K': K_LIVE,
-            'liveness_tolerances': '|x_K-x*| <= 1e-5 (1+|x*|), KKT residual <= 1e-6 (1+|x*|+|y*|)',
+            'liveness_tolerances': '|x_K-x*| <= 1e-5 (1+|x*|) (unique solutions), KKT residual <= '
+                                   '1e-6 (1+|x*|+|y*|)',
             'fixed_point_tolerance': '1e-10 (1+|x*|) after 1 and 3 iterations',
-            'power_method_maxiter': [1, 2, 3, 4, 5, 6, 8, 10, 13, 14, 20],
+            'power_method_maxiter': [1, 2, 3, 4, 5, 8, 13, 20, 6, 10, 14] if thorough
+            else [1, 2, 5, 20, 4, 10],
+            'power_method_starts': 'basis vectors, {-1, 1/2, 2}^n, seeded default noise',
             'tier': tier},
         'assumptions': [
-            'convergence is a limit statement: only the horizon K is decided (a correct solver '
-            'needs < K/3 iterations on every pool member on the pinned tree); early exit of a run '
-            'once the iterate is 1000x inside the tolerances',
+            'convergence is a limit statement: only the horizon K=%d is decided (every solver '
+            'that is not reported needs < K/3 iterations on every pool member); a run is left '
+            'early once the iterate is 1000x inside the tolerances' % K_LIVE,
             'pool problems are built backwards from (x*, y*); the KKT inclusion of that pair is '
             're-verified by the reference sub-differentials in every state (assert), so x* is a '
-            'certified solution, not a stored answer of the library',
+            'certified solution, not a stored answer of the library; the KKT residual of an '
+            'iterate x is the natural residual of  y* in dg(Lx), -L*y* - grad h(x) in df(x)',
+            'ill-conditioned / degenerate members (boundary sub-gradients, zero multipliers of '
+            'active bounds) assert the fixed point only, not bounded liveness',
             'operators whose .adjoint is not the exact adjoint in the weighted inner products '
             '(odl.MatrixOperator between differently weighted spaces: C05) are replaced by a '
             'harness operator with the exact adjoint; states with an inexact adjoint are skipped',
@@ -1618,9 +1643,18 @@ def meta(tier):
             'default step rules use the power method from a random start; numpy.random is seeded '
             'from the configuration; if the resulting steps violate the documented condition '
             '(estimate below the true norm) the run is counted, not judged',
-            'pdhg acceleration (gamma_primal/gamma_dual), the l_i terms of DR / FBPD, callable '
-            'lam, projection= and random=True of kaczmarz/landweber are not explored '
-            '(unreached anchor lines)',
+            'accelerated_proximal_gradient is run with gamma <= 1/Lip only (its docstring names '
+            '0 < gamma < 2/Lip as necessary, FISTA theory needs gamma <= 1/Lip)',
+            'exceptions of newton / bfgs / broyden / nonlinear CG (not named by the property) and '
+            'the documented ValueError of the line search (max_num_iter) are counted as '
+            'unspecified; their objective values along the iterates are judged',
+            'power method: a start vector in the kernel (ValueError "reached x=0") yields no '
+            'estimate and is counted as unspecified',
+            'unreached anchor lines: argument validation raises, pdhg acceleration '
+            '(gamma_primal/gamma_dual), the l_i terms of DR / FBPD and DR without operators, '
+            'projection= of landweber/kaczmarz/steepest_descent, random=True of kaczmarz, '
+            'maxiter=None / callback of the power method, NaN / non-finite guards of the line '
+            'search',
             'Lyapunov / Fejer monotonicity (pdhg metric, proximal-gradient objective) is a '
             'diagnostic: counted in coverage.diagnostic_nonmonotone, never a violation'],
     }
